@@ -4,4 +4,5 @@
 mod io;
 mod ibc;
 mod ledger;
+mod oracle;
 mod validators;
